@@ -89,12 +89,12 @@ theorem rep_sameSide (cuts : List Nat) (x : Nat) : SameSide cuts x (cutRep cuts 
 section
 variable {σ τ : Type} [DecidableEq σ] [DecidableEq τ]
 
-/-- A set of state pairs accepted by `bisimClosed` is a bisimulation on ALL code points. -/
-theorem closed_sound (A : Aut σ) (B : Aut τ) (hA : A.Respects) (hB : B.Respects)
+/-- A set of state pairs accepted by `bisimClosed` is a simulation on ALL code points. -/
+theorem closed_sound (rel : Bool → Bool → Bool) (A : Aut σ) (B : Aut τ) (hA : A.Respects) (hB : B.Respects)
     (alpha : List Nat) (p0 : σ) (q0 : τ) (seen : List (σ × τ))
-    (h : bisimClosed A B alpha p0 q0 seen = true) :
-    ∀ w, A.accepts p0 w = B.accepts q0 w := by
-  simp only [bisimClosed, Bool.and_eq_true, List.all_eq_true, List.contains_iff_mem, beq_iff_eq] at h
+    (h : bisimClosed rel A B alpha p0 q0 seen = true) :
+    ∀ w, rel (A.accepts p0 w) (B.accepts q0 w) = true := by
+  simp only [bisimClosed, Bool.and_eq_true, List.all_eq_true, List.contains_iff_mem] at h
   obtain ⟨⟨h0, hstart⟩, hall⟩ := h
   have step : ∀ pq ∈ seen, ∀ x, (A.step pq.1 x, B.step pq.2 x) ∈ seen := by
     intro pq hpq x
@@ -118,17 +118,30 @@ theorem closed_sound (A : Aut σ) (B : Aut τ) (hA : A.Respects) (hB : B.Respect
       simpa [Aut.run] using this
   intro w
   have hw := run w _ hstart
-  have := (hall _ hw).1.1.1
-  simpa [Aut.accepts] using this
+  exact (hall _ hw).1.1.1
+
+theorem autRel_sound (rel : Bool → Bool → Bool) (A : Aut σ) (B : Aut τ) (hA : A.Respects) (hB : B.Respects)
+    (p0 : σ) (q0 : τ) (fuel : Nat) (h : autRel rel A B p0 q0 fuel = true) :
+    ∀ w, rel (A.accepts p0 w) (B.accepts q0 w) = true := by
+  simp only [autRel] at h
+  cases hx : bisimExplore rel A B (alphabetOf A B p0 q0) fuel [((p0, q0), [])] [] with
+  | equiv seen => rw [hx] at h; exact closed_sound rel A B hA hB _ p0 q0 _ h
+  | differ w => rw [hx] at h; cases h
+  | fuel => rw [hx] at h; cases h
 
 theorem autEquiv_sound (A : Aut σ) (B : Aut τ) (hA : A.Respects) (hB : B.Respects)
     (p0 : σ) (q0 : τ) (fuel : Nat) (h : autEquiv A B p0 q0 fuel = true) :
     ∀ w, A.accepts p0 w = B.accepts q0 w := by
-  simp only [autEquiv] at h
-  cases hx : bisimExplore A B (alphabetOf A B p0 q0) fuel [((p0, q0), [])] [] with
-  | equiv seen => rw [hx] at h; exact closed_sound A B hA hB _ p0 q0 _ h
-  | differ w => rw [hx] at h; cases h
-  | fuel => rw [hx] at h; cases h
+  intro w
+  have := autRel_sound relEq A B hA hB p0 q0 fuel h w
+  simpa [relEq] using this
+
+theorem autIncl_sound (A : Aut σ) (B : Aut τ) (hA : A.Respects) (hB : B.Respects)
+    (p0 : σ) (q0 : τ) (fuel : Nat) (h : autIncl A B p0 q0 fuel = true) :
+    ∀ w, A.accepts p0 w = true → B.accepts q0 w = true := by
+  intro w ha
+  have := autRel_sound relImp A B hA hB p0 q0 fuel h w
+  simpa [relImp, ha] using this
 end
 
 theorem reAut_accepts (r : Re) (w : List Nat) : reAut.accepts r w = matchesRe r w := rfl
